@@ -120,14 +120,16 @@ pub fn gen_file(ctx: &Ctx, max_rows: usize) -> R<Option<PqFile>> {
     cfg.reader_batch = *ctx.pick(&[7, 1, 2, 3, 16, 1024], "c15.batch");
     set_component("parquet.arrow_writer(reference)");
     let mut buf = Vec::new();
-    let written = (|| -> Result<(), ParquetError> {
-        let mut w = ArrowWriter::try_new(&mut buf, schema.clone(), Some(cfg.props()))?;
+    // (a writer that fails or panics on this configuration is C05's matter: nothing to read here)
+    let written = std::panic::catch_unwind(std::panic::AssertUnwindSafe(|| -> Result<(), ParquetError> {
+        let mut w = ArrowWriter::try_new(&mut buf, schema.clone(), Some(cfg.props_for(&schema)))?;
         for b in &batches {
             w.write(b)?;
         }
         w.close()?;
         Ok(())
-    })();
+    }))
+    .unwrap_or_else(|_| Err(ParquetError::General("the writer panicked".into())));
     if let Err(e) = written {
         ctx.count("skipped", 1);
         ctx.count("skipped.reference_write_failed", 1);
